@@ -29,6 +29,8 @@
     `markS self hname fuel body`   pure specification of `markTailCalls` (no state, ids erased);
                               `isSelfHead c fname`, `headName c` are the two tests it depends on
     `FormR / BodyR / ClausesR`     the tail positions, as an inductive relation input ↦ output
+    `consOrNil v`             `v` is a cons cell or nil (a list continuation, not a dotted atom);
+                              `selfArgs targs`: the argument list of the bounce form of `(f . targs)`
     `specialName s`           `s ∈ {progn, let, let*, if, cond}`;  `PlainForm`: a last form that is
                               not descended into
 
@@ -44,8 +46,8 @@
        `tail_call_as_call`, `ordinary_call`, `value_call`
     4. `markTailCalls_frame`, `markTailCalls_spec`, (a) `markTailCalls_forms`,
        `markTailCalls_forms_verbatim`, (b) `markTailCalls_plain_last`, `markTailCalls_if`,
-       `markTailCalls_let`, `markTailCalls_progn`, `markTailCalls_cond`, (c) `markTailCalls_self_call`,
-       (d) `markTailCalls_tailpos`, (e) `markTailCalls_fuel`, `markTailCalls_no_fuel`, `defun_unfold`
+       `markTailCalls_let`, `markTailCalls_progn`, `markTailCalls_cond`, (c) `markTailCalls_self_call`
+       (`…_any`, `…_dotted`), `markTailCalls_dotted`, (d) `markTailCalls_tailpos`, (e) `markTailCalls_fuel`, `markTailCalls_no_fuel`, `defun_unfold`
     5. examples computed by `rfl`
     6. FINDING `tco_changes_meaning_under_let` (with `let_marking`, `let_plain_succeeds`,
        `let_marked_fails`): the optimised loop and ordinary recursion DIFFER when the tail call
@@ -450,21 +452,51 @@ theorem markTailCalls_plain_last {fname fuel : Nat} {body w tail : Val} {ini : L
     cases hf
     rw [hv, elems_ofList, he]; simp
 
-/-- 4c: a last form `(f a1 … an)` whose head is `eq` to the function name becomes
-    `(<evalEach> <bounce> a1 … an)`, the argument forms verbatim (the other forms copied). -/
-theorem markTailCalls_self_call {fname fuel j : Nat} {body w th targs : Val} {ini : List Val}
+/-- 4c, for every last form `(f . targs)` whose head is `eq` to the function name, well formed or
+    not: it becomes `(<evalEach> <bounce> . selfArgs targs)` (the other forms copied), where
+    `selfArgs targs` is `targs` verbatim when `targs` is a list (a cons cell or nil) and the
+    one-element list `(atom)` for the dotted call `(f . atom)` (Rust: `nil.append(targs)`). -/
+theorem markTailCalls_self_call_any {fname fuel j : Nat} {body w th targs : Val} {ini : List Val}
     {c c' : Ctx} (h : markTailCalls fname fuel body c = (.ok w, c'))
     (he : body.elems = ini ++ [.cons j th targs]) (hs : isSelfHead c fname th = true) :
     eraseIds w = Val.ofList (ini.map eraseIds ++
-      [.cons 0 (.builtin .evalEach) (.cons 0 .bounce (eraseIds targs))]) := by
+      [.cons 0 (.builtin .evalEach) (.cons 0 .bounce (selfArgs targs))]) := by
   have hm := (markTailCalls_ok h).1
   obtain ⟨f, rfl⟩ := markS_ok_fuel_pos hm
   obtain ⟨nt, hf, hv⟩ := markS_body hm he
   rw [formS_self hs] at hf
   cases hf; exact hv
 
+/-- 4c: a last form `(f a1 … an)` whose head is `eq` to the function name becomes
+    `(<evalEach> <bounce> a1 … an)`, the argument forms verbatim (the other forms copied).
+    `consOrNil targs`: the call is not the dotted `(f . atom)`, for which see
+    `markTailCalls_self_call_dotted`. -/
+theorem markTailCalls_self_call {fname fuel j : Nat} {body w th targs : Val} {ini : List Val}
+    {c c' : Ctx} (h : markTailCalls fname fuel body c = (.ok w, c'))
+    (he : body.elems = ini ++ [.cons j th targs]) (hs : isSelfHead c fname th = true)
+    (hl : consOrNil targs = true) :
+    eraseIds w = Val.ofList (ini.map eraseIds ++
+      [.cons 0 (.builtin .evalEach) (.cons 0 .bounce (eraseIds targs))]) := by
+  rw [← selfArgs_of_consOrNil hl]
+  exact markTailCalls_self_call_any h he hs
+
+/-- the dotted self-call `(f . atom)` becomes `(<evalEach> <bounce> atom)` -/
+theorem markTailCalls_self_call_dotted {fname fuel j : Nat} {body w th targs : Val} {ini : List Val}
+    {c c' : Ctx} (h : markTailCalls fname fuel body c = (.ok w, c'))
+    (he : body.elems = ini ++ [.cons j th targs]) (hs : isSelfHead c fname th = true)
+    (hl : consOrNil targs = false) :
+    eraseIds w = Val.ofList (ini.map eraseIds ++
+      [.cons 0 (.builtin .evalEach) (.cons 0 .bounce (.cons 0 (eraseIds targs) .nil))]) := by
+  rw [← selfArgs_of_atom hl]
+  exact markTailCalls_self_call_any h he hs
+
+/-- `consOrNil` holds of the argument lists of ordinary calls, and fails for dotted ones -/
+example : consOrNil (L [.sym 3, .int 1]) = true ∧ consOrNil .nil = true ∧ consOrNil (.int 5) = false :=
+  ⟨rfl, rfl, rfl⟩
+
 /-- `if` in tail position: the condition is copied verbatim (a self-call there stays an ordinary
-    call); the then-form is a tail position and so is the last of the else-forms. -/
+    call); the then-form is a tail position and so is the last of the else-forms.  (When the
+    marking succeeds `rest` is a list; for `(if c . atom)` it fails: `markTailCalls_dotted`.) -/
 theorem markTailCalls_if {fname fuel j k : Nat} {body w th cond rest : Val} {ini : List Val}
     {c c' : Ctx} (h : markTailCalls fname fuel body c = (.ok w, c'))
     (he : body.elems = ini ++ [.cons j th (.cons k cond rest)])
@@ -476,7 +508,12 @@ theorem markTailCalls_if {fname fuel j k : Nat} {body w th cond rest : Val} {ini
   have hm := (markTailCalls_ok h).1
   obtain ⟨f, rfl⟩ := markS_ok_fuel_pos hm
   obtain ⟨nt, hf, hv⟩ := markS_body hm he
-  rw [formS_if hs hn] at hf
+  have hr : consOrNil rest = true := by
+    by_cases hr : consOrNil rest = true
+    · exact hr
+    · rw [formS_if_rest_dotted hs hn _ _ _ (by simpa using hr)] at hf
+      cases hf
+  rw [formS_if hs hn _ _ _ hr] at hf
   obtain ⟨tm, htm, hf⟩ := bindR_eq_ok hf
   obtain ⟨e', he', e⟩ := bindR_eq_ok hf
   cases e
@@ -530,9 +567,31 @@ theorem markTailCalls_cond {fname fuel j : Nat} {body w th targs : Val} {ini : L
   cases e
   exact ⟨_, (markS_sound _).2 _ _ hcl, hv⟩
 
+/-- a last form `(th . targs)` on which the marking fails as the interpreter's `car` of an atom
+    does: `(let . atom)`, `(let* . atom)`, `(if . atom)`, `(if c . atom)` (atom ≠ nil) -/
+def DottedForm (c : Ctx) (th targs : Val) : Prop :=
+  ((headName c th = "let" ∨ headName c th = "let*") ∧ consOrNil targs = false) ∨
+  (headName c th = "if" ∧
+    (consOrNil targs = false ∨ ∃ k cond rest, targs = .cons k cond rest ∧ consOrNil rest = false))
+
+/-- The dotted `let` / `let*` / `if` forms in tail position make the marking fail with
+    `TypeMismatch`; nothing but the id counter changes. -/
+theorem markTailCalls_dotted {fname fuel j : Nat} {body th targs : Val} {ini : List Val} {c : Ctx}
+    (he : body.elems = ini ++ [.cons j th targs]) (hs : isSelfHead c fname th = false)
+    (hd : DottedForm c th targs) :
+    (markTailCalls fname (fuel + 1) body c).1 = .err .typeMismatch := by
+  apply err_of_mapR
+  rw [markTailCalls_spec, markS_body_eq he]
+  rcases hd with ⟨hn, hl⟩ | ⟨hn, hl | ⟨k, cond, rest, rfl, hl⟩⟩
+  · rw [formS_let_dotted hs hn _ hl]; rfl
+  · rw [formS_if_dotted hs hn _ hl]; rfl
+  · rw [formS_if_rest_dotted hs hn _ _ _ hl]; rfl
+
 /-- 4d: with the fuel `defun` supplies (or more), `markTailCalls` succeeds with a result that is,
     up to cell ids, `v` IF AND ONLY IF `v` is the body with exactly the self-calls in tail position
-    (`BodyR`) replaced by their bounce form and everything else copied. -/
+    (`BodyR`) replaced by their bounce form and everything else copied.  (`BodyR` has no output
+    for a body whose tail positions contain one of the dotted forms `(let . atom)`, `(if . atom)`,
+    `(if c . atom)`: there the marking fails, see `markTailCalls_dotted`.) -/
 theorem markTailCalls_tailpos (fname fuel : Nat) (body : Val) (c : Ctx) (hf : body.size ≤ fuel)
     (v : Val) :
     (∃ w c', markTailCalls fname fuel body c = (.ok w, c') ∧ eraseIds w = v)
@@ -551,7 +610,8 @@ theorem markTailCalls_tailpos (fname fuel : Nat) (body : Val) (c : Ctx) (hf : bo
     | _ => simp [mapR] at hres
 
 /-- 4e: with `fuel ≥ body.size + 1` (what `defun` passes) the marking never runs out of fuel
-    and never panics: it succeeds, or fails with the `TypeMismatch` of a malformed `cond` clause. -/
+    and never panics: it succeeds, or fails with the `TypeMismatch` of a malformed `cond` clause
+    or of a dotted `(let . atom)`, `(if . atom)`, `(if c . atom)` in tail position. -/
 theorem markTailCalls_fuel (fname fuel : Nat) (body : Val) (c : Ctx) (h : body.size + 1 ≤ fuel) :
     (∃ w c', markTailCalls fname fuel body c = (.ok w, c')) ∨
     (∃ c', markTailCalls fname fuel body c = (.err .typeMismatch, c')) := by
@@ -669,8 +729,23 @@ example : mapR eraseIds
     (markTailCalls 0 60 (L [L [sCond, L [L [sF, sN], sAcc], L [.t, L [sF, sN], L [sF, sAcc]]]]) exCtx).1
     = .ok (L [L [sCond, L [L [sF, sN], sAcc], L [.t, L [sF, sN], bounceForm [sAcc]]]]) := rfl
 
-/-- a malformed `cond` clause is the one way marking can fail -/
+/-- a malformed `cond` clause is one way marking can fail -/
 example : (markTailCalls 0 60 (L [L [sCond, .int 1]]) exCtx).1 = .err .typeMismatch := rfl
+
+/-- the others are the dotted forms `(if . 5)`, `(if n . 5)`, `(let* . 5)` in tail position
+    (instances of `markTailCalls_dotted`) -/
+example : (markTailCalls 0 60 (L [.cons 0 sIf (.int 5)]) exCtx).1 = .err .typeMismatch := rfl
+example : (markTailCalls 0 60 (L [.cons 0 sIf (.cons 0 sN (.int 5))]) exCtx).1 = .err .typeMismatch := rfl
+example : (markTailCalls 0 60 (L [.cons 0 sLetStar (.int 5)]) exCtx).1 = .err .typeMismatch := rfl
+example : DottedForm exCtx sIf (.cons 0 sN (.int 5)) := .inr ⟨rfl, .inr ⟨_, _, _, rfl, rfl⟩⟩
+/-- `(if)`, `(if n)`, `(let*)` are accepted: `(if nil nil)`, `(if n nil)`, `(let* nil)` -/
+example : mapR eraseIds (markTailCalls 0 60 (L [L [sIf]]) exCtx).1 = .ok (L [L [sIf, .nil, .nil]]) := rfl
+example : mapR eraseIds (markTailCalls 0 60 (L [L [sIf, sN]]) exCtx).1 = .ok (L [L [sIf, sN, .nil]]) := rfl
+example : mapR eraseIds (markTailCalls 0 60 (L [L [sLetStar]]) exCtx).1 = .ok (L [L [sLetStar, .nil]]) := rfl
+/-- the dotted self-call `(f . 5)` becomes `(<evalEach> <bounce> 5)`, `(f)` becomes `(<evalEach> <bounce>)` -/
+example : mapR eraseIds (markTailCalls 0 60 (L [.cons 0 sF (.int 5)]) exCtx).1
+    = .ok (L [bounceForm [.int 5]]) := rfl
+example : mapR eraseIds (markTailCalls 0 60 (L [L [sF]]) exCtx).1 = .ok (L [bounceForm []]) := rfl
 
 /-- with too little fuel the model gives up (never happens with the fuel `defun` supplies) -/
 example : (markTailCalls 0 1 exTailBody exCtx).1 = .fuel := rfl
